@@ -97,7 +97,7 @@ func checkC01(c *C01Case) *Violation {
 	}
 	nontrivial := false
 	for _, opt := range []bool{false, true} {
-		res := Compile(src, Opts{Optimize: opt, Auto: c.Auto})
+		res := CompileMaybeLM(src, Opts{Optimize: opt, Auto: c.Auto})
 		if !res.OK() {
 			if res.Panic != nil || res.Budget {
 				return viol("crash", "opt=%v %s\n--- source\n%s", opt, res.Describe(), src)
